@@ -71,6 +71,7 @@ type Contract struct {
 	Pure          bool
 	PureRefs      bool // `pure refs`: a function of its argument VALUES even when they are references (the referenced objects are immutable)
 	NoPanic       bool
+	Finite        bool // `finite`: every float division of the body has a non-zero divisor (no Inf / NaN comes out of a division)
 	Trusted       string
 	AssumeEnsures string // `assumeensures "reason"`: the ensures clauses are assumed (not proved) while the body is still verified for its other clauses
 	AssumeFrame   string // `assumeframe "reason"`: the modifies clause is assumed (not proved) while the body is still verified
@@ -99,7 +100,7 @@ type ContractFile struct {
 
 var clauseKeywords = map[string]bool{
 	"props": true, "assumeframe": true, "assumeensures": true, "return": true, "requires": true, "ensures": true, "shows": true, "modifies": true, "decreases": true,
-	"loop": true, "call": true, "assert": true, "inline": true, "pure": true, "nopanic": true,
+	"loop": true, "call": true, "assert": true, "inline": true, "pure": true, "nopanic": true, "finite": true,
 	"trusted": true, "param": true, "let": true, "unclaimed": true,
 }
 
@@ -235,6 +236,8 @@ func addClause(cf *ContractFile, c *Contract, words []string, text, path string,
 		}
 	case "nopanic":
 		c.NoPanic = true
+	case "finite":
+		c.Finite = true
 	case "trusted":
 		c.Trusted = strings.Trim(rest, `"`)
 		if c.Trusted == "" {
